@@ -119,6 +119,10 @@ impl Server {
         client_id: ClientId,
         parent_version_id: VersionId,
     ) -> Result<GetVersionResult, ServerError> {
+        #[cfg(tcss_verif)]
+        if !crate::verif::in_hook() {
+            return crate::verif::get_child_version(self, client_id, parent_version_id);
+        }
         let mut txn = self.storage.txn(client_id)?;
         let client = txn.get_client()?.ok_or(ServerError::NoSuchClient)?;
 
@@ -156,6 +160,10 @@ impl Server {
         parent_version_id: VersionId,
         history_segment: HistorySegment,
     ) -> Result<(AddVersionResult, SnapshotUrgency), ServerError> {
+        #[cfg(tcss_verif)]
+        if !crate::verif::in_hook() {
+            return crate::verif::add_version(self, client_id, parent_version_id, history_segment);
+        }
         log::debug!("add_version(client_id: {client_id}, parent_version_id: {parent_version_id})");
 
         let mut txn = self.storage.txn(client_id)?;
@@ -208,6 +216,10 @@ impl Server {
         version_id: VersionId,
         data: Vec<u8>,
     ) -> Result<(), ServerError> {
+        #[cfg(tcss_verif)]
+        if !crate::verif::in_hook() {
+            return crate::verif::add_snapshot(self, client_id, version_id, data);
+        }
         log::debug!("add_snapshot(client_id: {client_id}, version_id: {version_id})");
 
         let mut txn = self.storage.txn(client_id)?;
@@ -275,6 +287,10 @@ impl Server {
         &self,
         client_id: ClientId,
     ) -> Result<Option<(Uuid, Vec<u8>)>, ServerError> {
+        #[cfg(tcss_verif)]
+        if !crate::verif::in_hook() {
+            return crate::verif::get_snapshot(self, client_id);
+        }
         let mut txn = self.storage.txn(client_id)?;
         let client = txn.get_client()?.ok_or(ServerError::NoSuchClient)?;
 
@@ -284,6 +300,12 @@ impl Server {
         } else {
             None
         })
+    }
+
+    /// (verification hook) the configured snapshot targets
+    #[cfg(tcss_verif)]
+    pub(crate) fn tcss_config(&self) -> (i64, u32) {
+        (self.config.snapshot_days, self.config.snapshot_versions)
     }
 
     /// Convenience method to get a transaction for the embedded storage.
